@@ -164,3 +164,104 @@ Example C07_numeric_example :
   /\ over_pops (fun prev p => npop_ok (length (q_support p)) prev p) None [ex_pop0; ex_pop1 (2 # 1000000)%Q true] = false
   /\ over_pops (fun prev p => npop_ok (length (q_support p)) prev p) None [ex_pop0; ex_pop1 (1 # 4000000000000)%Q false] = false.
 Proof. vm_compute. repeat split; reflexivity. Qed.
+
+(** ---- non-vacuity of the hypotheses (audit) ---- *)
+(** the two-round run of [C07_example] (thresholds 3 then 1, draws 5 and 4 rejected in round 0):
+    hypotheses of [C07_smc_schedule_independent] (with 2 parallel batches), [C07_totals_over_rounds],
+    [C07_population_is_rejection_round], [C07_particles_within_threshold], [C07_population_rows] *)
+Definition C07_nv_table : list (list draw) :=
+  [[dq 2 0; dq 5 1]; [dq 3 2; dq 4 3]; [dq 1 4; dq 2 5]; [dq 0 6; dq 1 7]].
+Definition C07_nv_rounds : list round_spec := [RThreshold (Fin 3); RThreshold (Fin 1)].
+Definition C07_nv_run (maxp : nat) : option (sstate * nat) :=
+  seq_run sstate (list draw) unit sobjective sconsumed (sprepare unit (fun _ _ => tt))
+          (fun i _ => nth i C07_nv_table []) supdate 10 (sinit 2 2 maxp C07_nv_rounds) 0.
+
+Example C07_smc_schedule_independent_nonvacuous :
+  1 <= 2 /\ exists sf, sseq unit (fun _ _ => tt) (fun i _ => nth i C07_nv_table []) 10 (sinit 2 2 2 C07_nv_rounds) = Some (sf, 4)
+                       /\ length (all_populations sf) = 2.
+Proof.
+  split; [repeat constructor|].
+  pose (r := C07_nv_run 2). assert (E : C07_nv_run 2 = r) by reflexivity. vm_compute in r.
+  match eval unfold r in r with Some (?s, _) => exists s end.
+  split; [exact E | vm_compute; reflexivity].
+Qed.
+
+Example C07_population_nonvacuous :
+  exists sf k p, C07_nv_run 1 = Some (sf, k) /\ Forall (fun batch => length batch <= 2) C07_nv_table
+    /\ nth_error (all_populations sf) 0 = Some p
+    /\ pop_of_round 2 2 (RThreshold (Fin 3)) p
+    /\ round_threshold (RThreshold (Fin 3)) = Some (Fin 3)
+    /\ In (Some (dq 3 2)) (p_rows p) /\ In (Some (dq 2 0)) (p_rows p) /\ p_n_sim p = 4.
+Proof.
+  pose (r := C07_nv_run 1). assert (E : C07_nv_run 1 = r) by reflexivity. vm_compute in r.
+  assert (HT : Forall (fun batch => length batch <= 2) C07_nv_table)
+    by (repeat (apply Forall_cons; [simpl; repeat constructor|]); apply Forall_nil).
+  match eval unfold r in r with Some (?s, ?k) =>
+    pose (sf := s); exists sf, k; fold sf in r end.
+  pose (p := nth 0 (all_populations sf) (pop_of (m_rej sf))). vm_compute in p.
+  exists p.
+  assert (Hn : nth_error (all_populations sf) 0 = Some p) by (vm_compute; reflexivity).
+  split; [exact E|]. split; [exact HT|]. split; [exact Hn|].
+  split; [exact (C07_population_is_rejection_round C07_nv_table 10 2 2 1 C07_nv_rounds sf _ HT E 0 p Hn)|].
+  split; [reflexivity|].
+  split; [vm_compute; right; left; reflexivity|].
+  split; [vm_compute; left; reflexivity|]. vm_compute; reflexivity.
+Qed.
+
+(** [C07_round_invariant]: a rejection state that has consumed one batch *)
+Example C07_round_invariant_nonvacuous :
+  Reach 2 2 (Some (Fin 3)) (fst (rupdate (rinit 2 2 (Some (Fin 3)) 1) [dq 2 0; dq 5 1] 0)) ([] ++ [dq 2 0; dq 5 1]).
+Proof. apply Reach_step; [apply Reach_init | simpl; repeat constructor]. Qed.
+
+(** numeric clauses: [C07_weight_is_prior_over_mixture], [C07_weight_scale_invariant],
+    [C07_cov_is_twice_weighted_variance], [C07_cov_scale_invariant], [C07_model_weight_ok],
+    [C07_model_cov_ok] *)
+Example C07_weight_cov_nonvacuous :
+  (0 < 3)%Q /\ ~ (3 == 0)%Q /\ (0 <= 1 # 1000)%Q
+  /\ model_weight (500000 # 1) [500000 # 1; 400000 # 1; 300000 # 1]%Q [1; 1; 1]%Q = Some (5 # 4)%Q
+  /\ model_weight (500000 # 1) [500000 # 1; 400000 # 1; 300000 # 1]%Q (map (Qmult 3) [1; 1; 1]%Q) = Some (5 # 4)%Q
+  /\ model_cov [3; 1; 2; 2]%Q [1; 1; 0; 2]%Q = Some (8 # 5)%Q
+  /\ model_cov [3; 1; 2; 2]%Q (map (Qmult 3) [1; 1; 0; 2]%Q) = Some (8 # 5)%Q.
+Proof.
+  split; [vm_compute; reflexivity|].
+  split; [intro HH; vm_compute in HH; discriminate HH|].
+  split; [apply Qle_bool_imp_le; vm_compute; reflexivity|].
+  repeat split; vm_compute; reflexivity.
+Qed.
+
+(** [C07_num_ok_sound] on a LATER population (branch [prev_weights = Some _]) and
+    [C07_num_ok_cov_sound] with two parameters (diagonal and off-diagonal entries): two populations of
+    three particles, the second one's weights 5/4, 5/6, 1 = prior / mixture of the first *)
+Definition C07_nv_pop0 : npop :=
+  {| q_support := [true; true; true]; q_prior := [Some (500000 # 1); Some (500000 # 1); Some (500000 # 1)]%Q;
+     q_cols := [[1 # 1000000; 3 # 2000000; 1 # 2000000]; [40; 10; 30]]%Q; q_weights := [Some 1; Some 1; Some 1]%Q;
+     q_cov := [[Some (1 # 2000000000000); Some 0]; [Some 0; Some (1400 # 3)]]%Q; q_dens := [] |}.
+Definition C07_nv_pop1 : npop :=
+  {| q_support := [true; true; true]; q_prior := [Some (500000 # 1); Some (500000 # 1); Some (500000 # 1)]%Q;
+     q_cols := [[1 # 1000000; 1 # 2000000; 3 # 2000000]; [20; 30; 10]]%Q;
+     q_weights := [Some (5 # 4); Some (5 # 6); Some 1]%Q;
+     q_cov := [[Some (9 # 20000000000000); Some 0]; [Some 0; Some 180]]%Q;
+     q_dens := [[500000 # 1; 400000 # 1; 300000 # 1]; [300000 # 1; 600000 # 1; 900000 # 1];
+                [500000 # 1; 500000 # 1; 500000 # 1]]%Q |}.
+
+Example C07_num_ok_nonvacuous :
+  let ps := [C07_nv_pop0; C07_nv_pop1] in
+  let ws := [5 # 4; 5 # 6; 1]%Q in
+  num_ok 3 ps = true /\ num_agree ps = true
+  /\ nth_error ps 1 = Some C07_nv_pop1 /\ prev_weights ps 1 = Some [1; 1; 1]%Q
+  /\ finite_weights C07_nv_pop1 = Some ws
+  /\ Quantile.var_defined (combine (nth 0 (q_cols C07_nv_pop1) []) ws) = true
+  /\ Qle_bool 1 (cov_tol ws) = false
+  /\ nth_error (q_cov C07_nv_pop1) 1 = Some [Some 0; Some 180]%Q
+  /\ nth_error [Some 0; Some 180]%Q 0 = Some (Some 0%Q) /\ nth_error [Some 0; Some 180]%Q 1 = Some (Some 180%Q)
+  /\ (** a wrong later weight, and a non-zero off-diagonal entry, are refused *)
+     num_ok 3 [C07_nv_pop0;
+               {| q_support := q_support C07_nv_pop1; q_prior := q_prior C07_nv_pop1; q_cols := q_cols C07_nv_pop1;
+                  q_weights := [Some (5 # 4); Some (5 # 6); Some (11 # 10)]%Q; q_cov := q_cov C07_nv_pop1;
+                  q_dens := q_dens C07_nv_pop1 |}] = false
+  /\ num_ok 3 [C07_nv_pop0;
+               {| q_support := q_support C07_nv_pop1; q_prior := q_prior C07_nv_pop1; q_cols := q_cols C07_nv_pop1;
+                  q_weights := q_weights C07_nv_pop1;
+                  q_cov := [[Some (9 # 20000000000000); Some (1 # 1000000)]; [Some 0; Some 180]]%Q;
+                  q_dens := q_dens C07_nv_pop1 |}] = false.
+Proof. cbv zeta. repeat split; vm_compute; reflexivity. Qed.
